@@ -16,12 +16,12 @@ SCHEMA = [
     o_sec("single", [o_int("x", 7), o_list("int", "zl", "{1, 2}")]),
     o_sec("tm", [o_int("x", 7), o_str("y", "why")], F_MULTI | F_TITLE),
     o_sec("tu", [o_int("x", 7)], F_MULTI | F_TITLE | F_NO_TITLE_DUPES),
-    o_sec("multi", [o_int("x", 7)], F_MULTI),
+    o_sec("multi", [o_int("x", 7), o_sec("in", [o_int("v", 1)], F_MULTI)], F_MULTI),
 ]
 HAND["c09"] = SCHEMA
 STARTS = {
     "init": "",
-    "parsed-a": "i = 3\nil += {30}\nsl = {p, q}\ntm a { x = 1 }\ntm b { y = bee }\nmulti { x = 1 }\nmulti { x = 2 }\nsingle { zl += 3 }\n",
+    "parsed-a": "i = 3\nil += {30}\nsl = {p, q}\ntm a { x = 1 }\ntm b { y = bee }\nmulti { x = 1 in { } in { v = 2 } }\nmulti { x = 2 in { v = 3 } in { v = 4 } }\nsingle { zl += 3 }\n",
     "parsed-b": "il = {}\ns = x\nni = 4\nfl = {}\ntu t1 { }\ntu t2 { x = 2 }\ntm a { }\n",
     "parsed-c": "il = {1, 2, 3, 4}\nsl += z\ntm ab { }\ntm c { }\ntm a { x = 9 }\ntm b { }\ntm abc { }\nb = on\nf = 0.5\n",
 }
@@ -65,7 +65,8 @@ def ops():
         O.append(("%s i (scalar)" % cmd, [cmd, 1, H("i"), "i", 1, "1"], lambda m, app=app: m.setlist("i", "int", [1], app)))
         O.append(("%s single|zl [8]" % cmd, [cmd, 1, H("single|zl"), "i", 1, "8"], lambda m, app=app: m.setlist("single|zl", "int", [8], app)))
     for path, texts in (("il", ["7"]), ("il", ["7", "8", "9"]), ("i", ["6"]), ("i", ["6", "7"]), ("sl", ["m", "n"]), ("fl", ["0.5", "2"]),
-                        ("nosuch", ["1"]), ("b", ["yes"]), ("il", ["7", "bad"]), ("il", ["bad"]), ("fl", ["1", "2", "x"]), ("i", ["zz"])):
+                        ("nosuch", ["1"]), ("b", ["yes"]), ("il", ["7", "bad"]), ("il", ["bad"]), ("fl", ["1", "2", "x"]), ("i", ["zz"]), ("fl", ["1e999"]), ("il", ["99999999999999999999"]),
+                        ("i", ["-99999999999999999999"]), ("f", ["1e999"])):
         O.append(("setmulti %s %r" % (path, texts), ["setmulti", 1, H(path), len(texts)] + [H(t) for t in texts],
                   lambda m, path=path, texts=texts: m.setmulti(path, texts)))
     for sec, title in (("tm", "a"), ("tm", "new"), ("tm", "n2"), ("tu", "t1"), ("tu", "u9"), ("nosuch", "x"), ("i", "77"), ("il", "x")):
@@ -75,7 +76,9 @@ def ops():
         O.append(("rmnsec %s %d" % (sec, idx), ["rmnsec", 1, H(sec), idx], lambda m, sec=sec, idx=idx: m.rmnsec(sec, idx)))
     for sec, title in (("tm", "a"), ("tm", "b"), ("tm", "zz"), ("tu", "t2"), ("multi", "x"), ("nosuch", "x"), ("tm", "ab"), ("tm", ""), ("tu", "t")):
         O.append(("rmtsec %s %s" % (sec, title), ["rmtsec", 1, H(sec), H(title)], lambda m, sec=sec, title=title: m.rmtsec(sec, title)))
-    for path in ("tm=a", "tm=new", "tm", "multi=1", "multi=7", "single", "nosuch", "tu=t1"):
+    typed("setint", "int", "multi=1|in=1|v", 0, "73", 73)
+    typed("setint", "int", "multi=1|in=|v", 0, "74", 74)          # empty qualifier: does not resolve
+    for path in ("tm=a", "tm=new", "tm", "multi=1", "multi=7", "single", "nosuch", "tu=t1", "multi=1|in=", "multi=1|in=1", "multi=0|in"):
         O.append(("rmsec %s" % path, ["rmsec", 1, H(path)], lambda m, path=path: m.rmsec(path)))
     return O
 
